@@ -87,7 +87,7 @@ class Analysis:
         g = self.g
         for lit in lits:
             if lit[0] == "p":
-                out.append(g(lit[1]) == 1)
+                out.append(g(lit[1]) != 0)  # a condition may be wider than one bit: true iff non-zero
             elif lit[0] == "n":
                 out.append(g(lit[1]) == 0)
             elif lit[0] == "eq":
